@@ -54,6 +54,7 @@ class ModbusDevice:
         self.latency = latency
         self.delay_fn = None   # optional: (device, request) -> delay
         self.silent = False
+        self.fragment_at = None
         self.kern = None
         self.connects = []
         self.sent = []
@@ -107,7 +108,13 @@ class ModbusDevice:
         else:
             f = wire.rtu_frame(rq['unit'], pdu)
         dt = self.delay_fn(self, rq) if self.delay_fn else self.latency
-        self.kern.at(now + dt, sock, ('data', f))
+        p = self.fragment_at
+        if p and len(f) > p + 1 and rq['fn'] == 3 and pdu[0] == 3:
+            # the answer arrives in two pieces (first one carries the header up to its length field)
+            self.kern.at(now + dt, sock, ('data', f[:p]))
+            self.kern.at(now + dt + self.latency, sock, ('data', f[p:]))
+        else:
+            self.kern.at(now + dt, sock, ('data', f))
 
     def write_functions_seen(self):
         return [r for r in self.log if r['fn'] != 3]
